@@ -411,6 +411,26 @@ def oracle(ctx, deep=False, broken=None):
             errs += 1
         if f is not None:
             fails.append(f)
+    # the d written to result files = the d of a fresh code of that size (same for n, k)
+    n_rec = 0
+    for cls, sizes in recorded_cases(ctx, deep):
+        try:
+            rec = recorded_d(cls, sizes)
+        except Exception as e:  # noqa
+            errs += 1
+            continue
+        for size in sizes:
+            n_rec += 1
+            code = K.build(cls, size, (None, {}))
+            want = (int(code.n), int(code.k), int(code.d))
+            got = sorted(rec.get(tuple(size), {('missing',)}))
+            if got != [want]:
+                fails.append({'input': {'class': cls, 'size': list(size), 'recorded': True,
+                                        'batch_sizes': [list(x) for x in sizes]},
+                              'observed': f'results file of a batch over sizes {sizes} records (n, k, d) = {got} for '
+                                          f'{cls}{tuple(size)}; a fresh code of that size has {want}',
+                              'match': {'class': cls, 'size': list(size), 'recorded': True}})
+                break
     # one replay per class: the smallest failing size
     seen, out = set(), []
     for f in fails:
@@ -419,12 +439,17 @@ def oracle(ctx, deep=False, broken=None):
             continue
         seen.add(k)
         out.append(f)
-    return out, {'evaluations': len(cases), 'construct_errors': errs, 'deep': bool(deep),
+    return out, {'evaluations': len(cases) + n_rec, 'recorded_d_cases': n_rec, 'construct_errors': errs, 'deep': bool(deep),
                  'milp_cases': len(milp_cases), 'seconds': round(time.time() - t0, 1)}
 
 
 def replay(ctx, payload):
     i = payload['input']
+    if i.get('recorded'):
+        sizes = [tuple(x) for x in i['batch_sizes']]
+        rec = recorded_d(i['class'], sizes)
+        code = K.build(i['class'], tuple(i['size']), (None, {}))
+        return sorted(rec.get(tuple(i['size']), {('missing',)})) != [(int(code.n), int(code.k), int(code.d))]
     try:
         inst = live(i['class'], tuple(i['size']), (i['deform'][0], i['deform'][1]))
     except Exception:  # noqa
@@ -443,6 +468,71 @@ def exhaustive_reference(inst: D.Inst) -> Optional[bool]:
     if inst.d - 1 > 4 or (inst.d - 1 >= 3 and inst.n > 110):
         return None
     return lighter_mitm(inst, inst.d - 1) is None
+
+
+
+# ---- the d written to result files (statement: "... and that is written to result files and used as the
+# scaling variable in threshold fits"): a batch of simulations whose lattice sizes are permutations of
+# each other, built in ONE process through read_input_dict, one trial each, file read back with json
+
+def recorded_cases(ctx, deep):
+    """[(cls, [sizes...])]: per class a few table sizes plus all their distinct axis permutations"""
+    import itertools as it
+    out = []
+    for cls in K.CLASSES:
+        sizes = [tuple(x) for x in R.instance_sizes(cls) if K.qubit_count(cls, x) <= (120 if deep else 60)]
+        fam = [x for x in sizes if len(set(x)) > 1]
+        fam.sort(key=lambda x: K.qubit_count(cls, x))
+        chosen, symmetric = [], []
+        for x in fam:
+            perms = [q for q in sorted(set(it.permutations(x))) if q in sizes]
+            if len(perms) < 2 or any(set(perms) <= set(c) for c in chosen + symmetric):
+                continue
+            try:
+                triples = {(int(c_.n), int(c_.k), int(c_.d)) for c_ in (K.build(cls, q, (None, {})) for q in perms)}
+            except Exception:  # noqa
+                continue
+            # families whose members differ in (n, k, d) come first: only there a mix-up between
+            # permuted sizes is visible
+            (chosen if len(triples) > 1 else symmetric).append(perms)
+            if len(chosen) >= (3 if deep else 1):
+                break
+        chosen = (chosen + symmetric)[: (3 if deep else 1)]
+        flat = [q for c in chosen for q in c]
+        if not flat and sizes:
+            flat = sizes[:2]
+        if flat:
+            out.append((cls, flat))
+    return out
+
+
+def recorded_d(cls, sizes):
+    """the (n, k, d) recorded for each size in the results file of one batch (one process, one trial each)"""
+    import json as _json
+    import os as _os
+    import tempfile
+    import contextlib
+    import io
+    from panqec.simulation import read_input_dict
+    names = ['L_x', 'L_y', 'L_z']
+    spec = {'ranges': {'label': 'c17', 'code': {'name': cls, 'parameters': [dict(zip(names, sz)) for sz in sizes]},
+                       'error_model': {'name': 'PauliErrorModel',
+                                       'parameters': [{'r_x': 0.25, 'r_y': 0.25, 'r_z': 0.5}]},
+                       'decoder': {'name': 'BeliefPropagationOSDDecoder',
+                                   'parameters': {'max_bp_iter': 2, 'osd_order': 0}},
+                       'error_rate': [0.0625]}}
+    with tempfile.TemporaryDirectory() as t, contextlib.redirect_stdout(io.StringIO()), \
+            contextlib.redirect_stderr(io.StringIO()):
+        f = _os.path.join(t, 'results.json')
+        b = read_input_dict(spec, output_file=f)
+        mem = [sim.get_results_to_save()['inputs']['code'] for sim in b._simulations]
+        b.run(1)
+        doc = _json.load(open(f))
+    out = {}
+    for rec in [d_['inputs']['code'] for d_ in doc] + mem:
+        key = tuple(rec['parameters'][a] for a in names[:len(sizes[0])])
+        out.setdefault(key, set()).add((int(rec['n']), int(rec['k']), int(rec['d'])))
+    return out
 
 
 def correspondence(ctx):
@@ -539,4 +629,23 @@ def correspondence(ctx):
                        tag='negative:overstated-d')
     s2.add('checkdistance 4 2 2 15,240 3,5 80,48 Q', 'ERR cert', {'code': 'malformed certificate'}, tag='malformed')
     s2.run()
-    return [s1, s2]
+
+    # ---- stream 3: the d / n / k written to the results file of a batch with permuted lattice sizes
+    s3 = Stream('recorded-d-in-results-file')
+    for cls, sizes in recorded_cases(ctx, ctx.thorough):
+        try:
+            rec = recorded_d(cls, sizes)
+        except Exception as e:  # noqa
+            s3.add(f'bad-op recorded {cls}', f'EXC:{type(e).__name__}:{str(e)[:80]}', {'class': cls, 'sizes': sizes},
+                   tag='construct-fail')
+            continue
+        for size in sizes:
+            code = K.build(cls, size, (None, {}))                # a freshly built code of that size
+            LX, LZ = K.dense(code.logicals_x), K.dense(code.logicals_z)
+            got = sorted(rec.get(tuple(size), {('missing',)}))
+            ans = str(got[0][2]) if len(got) == 1 and len(got[0]) == 3 else f'INCONSISTENT:{got}'
+            s3.add(f'dist {stack(LX)} {stack(LZ)}', ans,
+                   {'class': cls, 'size': list(size), 'batch_sizes': [list(x) for x in sizes],
+                    'what': 'inputs.code.d of the results file vs distance of a fresh code'}, tag=cls)
+    s3.run()
+    return [s1, s2, s3]
